@@ -41,6 +41,9 @@ structure CertFlags where
   signOk : Bool          -- own key admitted for certificate signing: the basic-constraints /
                          -- key-usage part of `cert.CheckSignatureFrom(cert)`
   subjEqIssuer : Bool    -- `bytes.Equal(cert.RawSubject, cert.RawIssuer)`
+  weakSig : Bool         -- signed with an algorithm `CheckSignatureFrom` refuses outright
+                         -- (`x509.InsecureAlgorithmError`: SHA-1 and MD5 based ones). `CheckSignature`
+                         -- still verifies SHA-1 signatures (so `selfSig` can be true) but not MD5 ones.
   deriving DecidableEq, Repr, FromJson, ToJson
 
 structure Entry where
@@ -67,6 +70,23 @@ structure CtxSpec where
   deadline : Bool        -- flavour of the end: `DeadlineExceeded` (true) or `Canceled` (false)
   deriving DecidableEq, Repr, FromJson, ToJson
 
+/-- another store of the same trust store root that is loaded at the same time -/
+structure ParStore where
+  storeType : String
+  name : Text
+  entries : List Entry
+  deriving DecidableEq, Repr, FromJson, ToJson
+
+/-- what else goes on while the call under test runs: `workers` goroutines keep loading this store
+and the `stores` listed here (for `storePath`: keep computing their paths) `rounds` times each.
+The code has no state shared between calls (`Facts.c13SharedState = []`, pinned in Props), so the
+model does not look at this. -/
+structure ParSpec where
+  stores : List ParStore
+  workers : Nat
+  rounds : Nat
+  deriving DecidableEq, Repr, FromJson, ToJson
+
 structure Input where
   op : Op
   storeType : String
@@ -74,6 +94,7 @@ structure Input where
   dirKind : DirKind
   entries : List Entry   -- in creation order; `os.ReadDir` sorts by name
   decoys : Bool          -- harness plants valid certificates outside the store; not seen by the model
+  par : ParSpec          -- concurrent calls for other stores (empty: none)
   ctx : CtxSpec          -- `load` only. `GetCertificates` never looks at its context
                          -- (`Facts.c13ContextUses = []`, pinned in Props), so neither does the model
   deriving Repr, FromJson, ToJson
@@ -171,9 +192,9 @@ def needsRoot (t : String) : Bool := Facts.c13RootCheckedTypes.contains t
 def validateCertificates (cs : List CertFlags) : Bool :=
   !cs.isEmpty && cs.all (fun c => c.isCA || c.selfSig)
 
-/-- `isRootCACertificate`: `cert.CheckSignatureFrom(cert)` (constraints, then signature), then
-subject = issuer -/
-def isRootCA (c : CertFlags) : Bool := (c.signOk && c.selfSig) && c.subjEqIssuer
+/-- `isRootCACertificate`: `cert.CheckSignatureFrom(cert)` (constraints, then the algorithm policy,
+then the signature), then subject = issuer -/
+def isRootCA (c : CertFlags) : Bool := (c.signOk && !c.weakSig && c.selfSig) && c.subjEqIssuer
 
 /-- the `for _, file := range files` loop; `none` = an error return (the accumulated slice is dropped) -/
 def loadEntries (t : String) : List Entry → List CertFlags → Option (List CertFlags)
@@ -214,9 +235,11 @@ def plainName (n : Text) : Bool := n != [] && n.all plainChar && n != ['.'] && n
 
 def specTypes : List String := ["ca", "signingAuthority", "tsa"]
 
-/-- CA or self-signed; in a tsa store a self-signed root -/
+/-- CA or self-signed; in a tsa store a self-signed root - self-signed meaning that the signature
+verifies under the own key with an algorithm crypto/x509 still verifies for certificate chains (a
+SHA-1 or MD5 signed "root" is not verifiably self-signed and is refused) -/
 def acceptable (t : String) (c : CertFlags) : Bool :=
-  (c.isCA || c.selfSig) && (t != "tsa" || (c.selfSig && c.signOk && c.subjEqIssuer))
+  (c.isCA || c.selfSig) && (t != "tsa" || (c.selfSig && !c.weakSig && c.signOk && c.subjEqIssuer))
 
 /-- a regular file holding one or more parseable, acceptable certificates -/
 def entryLoadable (t : String) (e : Entry) : Bool :=
